@@ -195,6 +195,23 @@ class Parser:
                 self.accept(';')
                 stmts.append(('return', e))
                 continue
+            # indexed assignment `x[i] = e;`
+            if k == 'id' and self.peek(1)[1] == '[':
+                save = self.i
+                name = self.next()[1]
+                self.next()
+                try:
+                    idx = self.parse_expr()
+                    self.expect(']')
+                    if self.peek()[1] == '=':
+                        self.next()
+                        e = self.parse_expr()
+                        self.expect(';')
+                        stmts.append(('assign_index', name, idx, e))
+                        continue
+                except Untranslatable:
+                    pass
+                self.i = save
             # assignment `x = e;` / `x op= e;` or expression
             if k == 'id' and self.peek(1)[1] in ('=', '+=', '-=', '*=', '>>=', '<<=', '&=', '|=', '^=', '/=', '%='):
                 name = self.next()[1]
@@ -478,6 +495,12 @@ class Tr:
             for p in parts:
                 ty = unify(ty, p[1])
             return ('arr', [p[0] for p in parts]), ('array', ty, len(parts)), sum((p[2] for p in parts), [])
+        if k == 'index' and e[1][0] == 'var' and ('%s@' % e[1][1]) in env:
+            idx = self.const_int(e[2], env)
+            key = '%s@%d' % (e[1][1], idx)
+            if key not in env:
+                raise Untranslatable('index %d of %s out of the declared range' % (idx, e[1][1]))
+            return env[key][0], env[key][1], []
         if k == 'index':
             base, bty, c = self.expr(e[1], env, None)
             if isinstance(base, tuple) and base[0] == 'arr':
@@ -759,6 +782,19 @@ class Tr:
                 binds.append((gn, g))
                 env[pat] = (gn, ty_want or gty)
                 continue
+            if st[0] == 'assign_index':
+                name, idx, ex = st[1], self.const_int(st[2], env), st[3]
+                outs = env.get('@out')
+                if outs is None or name != outs[0]:
+                    raise Untranslatable('indexed assignment to %s' % name)
+                g, gty, c = self.expr(ex, env, outs[1])
+                pending += [(len(binds), x) for x in c]
+                gn = self.ctx.fresh('%s%d' % (name, idx))
+                binds.append((gn, g))
+                outs[2][idx] = gn
+                # later reads of name[idx] see the new value
+                env['%s@%d' % (name, idx)] = (gn, outs[1])
+                continue
             if st[0] == 'assert':
                 g, gty, c = self.expr(st[2], env, 'bool')
                 pending += [(len(binds), x) for x in c + [g]]
@@ -786,8 +822,21 @@ class Tr:
                     pending += [(len(binds), x) for x in chk]
                     term = '(if %s then %s else %s)' % (cond, rv, rg)
                     return self.close(binds, term, pending, rty or rgty)
+                if ex[0] == 'method' and ex[1] == 'copy_from_slice' and ex[2][0] == 'var' and env.get('@out') and env['@out'][0] == ex[2][1]:
+                    g, gty, c = self.expr(ex[3][0], env, None)
+                    pending += [(len(binds), x) for x in c]
+                    if not (isinstance(g, tuple) and g[0] == 'arr'):
+                        raise Untranslatable('copy_from_slice of non-literal array')
+                    for j, el in enumerate(g[1]):
+                        env['@out'][2][j] = el
+                    continue
                 raise Untranslatable('expression statement')
             raise Untranslatable('statement %s' % st[0])
+        if final is None and env.get('@out') is not None:
+            outs = env['@out'][2]
+            if sorted(outs) != list(range(len(outs))) or not outs:
+                raise Untranslatable('fragment outputs are not a dense range')
+            return self.close(binds, '[%s]' % '; '.join(outs[i] for i in range(len(outs))), pending, ('array', env['@out'][1], len(outs)))
         if final is None:
             raise Untranslatable('block without value')
         g, gty, c = self.expr(final, env, want)
@@ -885,6 +934,66 @@ def translate_fn(src, name, ctx, out_name=None):
     pre = ' && '.join(inrange(t, p) for p, t in plist if t != 'bool') or 'true'
     text += 'Definition %s_pre %s : bool := %s.\n' % (out_name, args, pre)
     ctx.fns[name] = (out_name, [t for _, t in plist], rty)
+    return text
+
+
+def enclosing_block(src, pos):
+    """text of the innermost `{...}` block containing position pos"""
+    depth, i = 0, pos
+    while i >= 0:
+        ch = src[i]
+        if ch == '}':
+            depth += 1
+        elif ch == '{':
+            if depth == 0:
+                break
+            depth -= 1
+        i -= 1
+    if i < 0:
+        raise Untranslatable('no enclosing block')
+    k, depth = i + 1, 1
+    while depth:
+        depth += (src[k] == '{') - (src[k] == '}')
+        k += 1
+    return src[i:k]
+
+
+def translate_fragment(src, fn_name, marker, occurrence, ctx, out_name, params, out_var, out_ty):
+    """Translate the innermost block of `fn_name` that contains the `occurrence`-th occurrence of `marker`.
+    params: list of (name, type) or (name, ('arrayin', elem type, n)); the block's result is the list of values
+    assigned to `out_var[0..]` (by `out_var[i] = e;` statements or `out_var.copy_from_slice(&[..])`)."""
+    found = find_fn(src, fn_name)
+    if not found:
+        raise Untranslatable('function not found')
+    body = found[2]
+    pos = -1
+    for _ in range(occurrence):
+        pos = body.find(marker, pos + 1)
+        if pos < 0:
+            raise Untranslatable('marker %r occurrence %d not found' % (marker, occurrence))
+    blk_src = enclosing_block(body, pos)
+    blk = Parser(tokenize(blk_src)).parse_block()
+    env, args, pre = {}, [], []
+    for pname, pty in params:
+        if isinstance(pty, tuple) and pty[0] == 'arrayin':
+            env['%s@' % pname] = True
+            for j in range(pty[2]):
+                a = '%s_%d' % (pname, j)
+                env['%s@%d' % (pname, j)] = (a, pty[1])
+                args.append(a)
+                pre.append(inrange(pty[1], a))
+        else:
+            env[pname] = (pname, pty)
+            args.append(pname)
+            pre.append(inrange(pty, pname))
+    env['@out'] = (out_var, out_ty, {})
+    tr = Tr(ctx, env, None)
+    val, vty, checks = tr.block(blk, env, None)
+    a = ' '.join('(%s : Z)' % x for x in args)
+    ok = ' &&\n    '.join(checks) if checks else 'true'
+    text = 'Definition %s %s : list Z :=\n  %s.\n' % (out_name, a, val)
+    text += 'Definition %s_ok %s : bool :=\n    %s.\n' % (out_name, a, ok)
+    text += 'Definition %s_pre %s : bool := %s.\n' % (out_name, a, ' && '.join(pre) or 'true')
     return text
 
 
@@ -1016,6 +1125,15 @@ KERNELS = [
     ('encoder.rs', 'chunk_size', 'chunk_size'),
 ]
 
+# fragments: (file, fn, marker, occurrence, gallina name, params, output variable, output element type)
+U8x2 = ('arrayin', 'u8', 2)
+FRAGMENTS = [
+    ('vp8.rs', 'fill_rgb_row', 'let coeffs', 1, 'rgb_pair', [('y', U8x2), ('u', 'u8'), ('v', 'u8')], 'rgb', 'u8'),
+    ('vp8.rs', 'fill_rgb_row', 'let coeffs', 2, 'rgb_tail', [('y', 'u8'), ('u', 'u8'), ('v', 'u8')], 'remainder', 'u8'),
+    ('vp8.rs', 'fill_rgba_row', 'let coeffs', 1, 'rgba_pair', [('y', U8x2), ('u', 'u8'), ('v', 'u8'), ('rgb', ('arrayin', 'u8', 8))], 'rgb', 'u8'),
+    ('vp8.rs', 'fill_rgba_row', 'let coeffs', 2, 'rgba_tail', [('y', 'u8'), ('u', 'u8'), ('v', 'u8')], 'remainder', 'u8'),
+]
+
 PRELUDE = '''(* GENERATED by tools/rs2v.py from %s/*.rs -- do not edit *)
 From Coq Require Import ZArith List Bool.
 Import ListNotations.
@@ -1056,6 +1174,23 @@ def gen_kernels(srcdir, allconsts):
             out.append('(* UNTRANSLATED %s: parse failure *)\n' % gname)
             continue
         out.append('(* %s :: %s *)\n%s' % (fname, rname, text))
+        translated.append(gname)
+    for fname, fn, marker, occ, gname, params, outv, outty in FRAGMENTS:
+        path = pathlib.Path(srcdir) / fname
+        fns = fns_by_file.setdefault(fname, {})
+        try:
+            src = strip_comments(path.read_text())
+            ctx = Ctx(fns, dict(allconsts.get(path.stem, {})))
+            text = translate_fragment(src, fn, marker, occ, ctx, gname, params, outv, outty)
+        except Untranslatable as ex:
+            untranslated.append((gname, str(ex)))
+            out.append('(* UNTRANSLATED %s: %s *)\n' % (gname, ex))
+            continue
+        except (IndexError, ValueError, KeyError, AssertionError, OSError) as ex:
+            untranslated.append((gname, 'parse failure: %r' % (ex,)))
+            out.append('(* UNTRANSLATED %s: parse failure *)\n' % gname)
+            continue
+        out.append('(* %s :: %s, block containing occurrence %d of `%s` *)\n%s' % (fname, fn, occ, marker, text))
         translated.append(gname)
     return '\n'.join(out), translated, untranslated
 
